@@ -424,3 +424,79 @@ func runAppendScenarios(rng *rand.Rand, n int, st *c06Stats, fail func(prop, mon
 		}
 	}
 }
+
+// Bounded merges into a log whose entry index is LARGER than its linearisation (C16, "all pairs of
+// logs"): a log loaded from a manifest with one block excluded keeps, through skip references, entries
+// that no head reaches.  For every bound: no panic, and the log holds exactly the last min(n, total)
+// entries of the linearisation of the unbounded merge (computed on an identically loaded twin).
+func runGapScenarios(rng *rand.Rand, n int, st *c06Stats, fail func(prop, mon, key, detail string, c interface{})) {
+	ctx := context.Background()
+	for it := 0; it < n; it++ {
+		w := newWorld()
+		src, _ := ipfslog.NewLog(w.api, w.idents["A"], &ipfslog.LogOptions{ID: "L", SortFn: sortFnOf("hash")})
+		k := 6 + rng.Intn(8)
+		var ents []iface.IPFSLogEntry
+		for i := 0; i < k; i++ {
+			e, err := src.Append(ctx, []byte(fmt.Sprintf("a%d", i)), &ipfslog.AppendOptions{PointerCount: pick(rng, []int{4, 8})})
+			if err != nil {
+				panic(err)
+			}
+			ents = append(ents, e)
+		}
+		mh, err := src.ToMultihash(ctx)
+		if err != nil {
+			panic(err)
+		}
+		remote, _ := ipfslog.NewLog(w.api, w.idents["B"], &ipfslog.LogOptions{ID: "L", SortFn: sortFnOf("hash")})
+		for i, nb := 0, 1+rng.Intn(3); i < nb; i++ {
+			if _, err := remote.Append(ctx, []byte(fmt.Sprintf("b%d", i)), nil); err != nil {
+				panic(err)
+			}
+		}
+		skipped := ents[2+rng.Intn(k-3)].GetHash()
+		load := func() *ipfslog.IPFSLog {
+			l, err := ipfslog.NewFromMultihash(ctx, w.api, w.idents["A"], mh, &ipfslog.LogOptions{ID: "L", SortFn: sortFnOf("hash")},
+				&ipfslog.FetchOptions{ShouldExclude: func(h cid.Cid) bool { return h.Equals(skipped) }})
+			if err != nil {
+				panic(err)
+			}
+			return l
+		}
+		twin := load()
+		if _, err := twin.Join(remote, -1); err != nil {
+			panic(err)
+		}
+		full := hashesOf(twin.Values().Slice())
+		for size := 0; size <= len(full)+2; size++ {
+			l := load()
+			st.aliasRuns++
+			info := map[string]interface{}{"scenario": "bounded merge into a log loaded with a gap", "entries_written": k, "index_size": l.Len(),
+				"linearisation_size": l.Values().Len(), "bound": size, "seed_iteration": it}
+			var jerr error
+			panicked := false
+			func() {
+				defer func() {
+					if r := recover(); r != nil {
+						panicked = true
+						fail("C16", "join-no-panic", "C16:join-panics-on-gap-loaded-log", fmt.Sprintf("Join(size=%d) panicked: %v", size, r), info)
+					}
+				}()
+				_, jerr = l.Join(remote, size)
+			}()
+			if panicked || jerr != nil {
+				continue
+			}
+			want := full
+			if size < len(full) {
+				want = full[len(full)-size:]
+			}
+			if got := hashesOf(l.Values().Slice()); !eqStrings(got, want) {
+				fail("C16", "bounded-join-vs-unbounded", "C16:differs-from-unbounded-merge",
+					fmt.Sprintf("Join(size=%d) into a gap-loaded log left %d values, the last entries of the unbounded merge are %d", size, len(got), len(want)), info)
+			}
+			if !eqStrings(sortedCopy(l.GetEntries().Keys()), sortedCopy(want)) {
+				fail("C16", "bounded-join-entries", "C16:wrong-entry-set", "entry set differs from the last min(n,total) entries of the unbounded merge", info)
+			}
+		}
+	}
+}
